@@ -306,6 +306,42 @@ EXTRA = {
     "C20": "E2: every sequence to depth 2 (thorough 3) of six observers (unfold_context / HedTagManager with and without "
            "remove_types) on one manager: answers equal a fresh manager's, manager state unchanged.",
 }
+EXTRA3 = {
+    "C01": "The reserved templates are re-run under 9 (thorough 25) PYTHONHASHSEED values in fresh interpreters (the verdict "
+           "must not depend on set iteration order); bad unit texts come from the C11 unit grammar; two empty groups.",
+    "C03": "The generated schema has a node with both a '#' child and named children; bulk cells that differ only in the "
+           "letter case of a value.",
+    "C04": "Value twins: two copies whose values differ in letter case only, under every spelling of the two names and every "
+           "order (pure differential).",
+    "C05": "Second generation: schemas reloaded from unmerged saves are saved and reloaded again in every format; TSV re-save "
+           "into the same directory; the in-memory data-frame form.",
+    "C06": "Every call of a history is compared with a fresh object's answer; assemble(skip_curly_braces=True) is in the "
+           "alphabet; frames handed out earlier stay as they were; a cell edit after an assembly; the table as a DataFrame "
+           "with empty / missing cells.",
+    "C07": "F5 curly-brace splicing under every row order, F6 rows whose onset is n/a, F7 Delay / Duration values that are "
+           "not numbers, F8 sheets without a header row.",
+    "C08": "Brace contents of every character kind; E2 histories on one Sidecar object edited in place between validations.",
+    "C09": "The histories also run under a namespace prefix; the table form of expand / shrink; Def-expand content with its "
+           "'#' unfilled where placeholders are allowed.",
+    "C10": "Sequences of files through one SpreadsheetValidator object.",
+    "C11": "Plurals of symbols, a unit before the number, a word between number and unit (validation and conversion).",
+    "C12": "sort_issues with numeric / text / absent column labels mixed; planted characters after a colon.",
+    "C13": "Every ordered pair of bundled schemas under one prefix is refused whenever their XML files share a tag name; "
+           "pairings across the 8.3.0 boundary with non-ASCII values (known finding).",
+    "C14": "Foreign inLibrary names that are fragments of the library's own name; legitimate deprecatedFrom values must not "
+           "be reported.",
+    "C15": "References for '{a && b}' and '[a && b]' on atoms; the annotation respelled (long form, other case) gives the "
+           "same answers.",
+    "C16": "An events file in the dataset root; the command line with --check-for-warnings and the JSON formats.",
+    "C17": "Run patterns of 4-5 rows for merge_consecutive; data-level faults at every list position; split_rows events "
+           "that tie with other rows.",
+    "C18": "A second manager object created before the backup existed; partial backups followed by a remodel run; capitals in "
+           "directory names.",
+    "C19": "fail_when_locked in the lock model (conformance trace); H7: the real url_to_file over a response cut after k bytes.",
+    "C20": "Inset markers and Onset groups with content in the item menu.",
+}
+for _k, _v in EXTRA3.items():
+    EXTRA[_k] = EXTRA.get(_k, "") + ("  " if _k in EXTRA else "") + _v
 for _k, _v in EXTRA.items():
     CHECKS[_k]["text"] += "  Extended: " + _v
 CHECKS["C03"]["engine"] = "E1+E2"
@@ -313,6 +349,10 @@ CHECKS["C03"]["technique"] += "; explicit-state exploration of operation histori
 CHECKS["C13"]["engine"] = "E1+E2"
 CHECKS["C13"]["technique"] += "; explicit-state exploration of prefix-change histories on one schema object"
 CHECKS["C20"]["technique"] += "; observer histories on one manager compared with fresh managers"
+CHECKS["C01"]["technique"] += "; enumeration of interpreter hash seeds for the order-dependent family"
+CHECKS["C08"]["engine"] = "E1+E2"
+CHECKS["C08"]["technique"] += "; explicit-state exploration of validate / edit histories on one Sidecar object"
+CHECKS["C10"]["technique"] += "; sequences of files through one validator object"
 
 
 def main():
